@@ -245,6 +245,8 @@ def popts_term(h):
     ind = ("ISpaces " if h[0][0] == "S" else "ITabs ") + str(int(h[0][1:]))
     a = [int(x) for x in h[1:6]]
     o = [int(x) for x in h[7:14]]
+    if max(a + o) > 100000:
+        raise ValueError("a spacing field beyond what vm_compute can lay out as a list")
     return ("{| p_indent := %s; array_begin := %d; array_end := %d; array_empty := %d; array_before_comma := %d; "
             "array_after_comma := %d; array_limit := %s; object_begin := %d; object_end := %d; object_empty := %d; "
             "object_before_comma := %d; object_after_comma := %d; object_before_colon := %d; object_after_colon := %d; "
